@@ -365,6 +365,44 @@ func (c *Ctx) checkFormat(r *Report, rule string, fn *ssa.Function, key, pos, fs
 	okAll := true
 	for i, v := range sp.Verbs {
 		op := operands[i]
+		// a formatting method that formats its own receiver with a verb that calls the same method again
+		// recurses without end (fatal stack overflow)
+		if fn.Signature.Recv() != nil && len(fn.Params) > 0 {
+			self := false
+			switch x := c.resolve(op, nil).(type) {
+			case *ssa.Parameter:
+				self = x == fn.Params[0]
+			case *ssa.UnOp:
+				if p, ok := c.resolve(x.X, nil).(*ssa.Parameter); ok && p == fn.Params[0] {
+					self = true
+				}
+			}
+			calls := ""
+			switch fn.Name() {
+			case "String", "Error":
+				if strings.ContainsRune("vsqxX", v.Verb) && !strings.Contains(v.Flags, "#") || strings.ContainsRune("sqxX", v.Verb) {
+					calls = fn.Name()
+				}
+			case "GoString":
+				if v.Verb == 'v' && strings.Contains(v.Flags, "#") {
+					calls = "GoString"
+				}
+			}
+			if self && calls != "" {
+				var ot types.Type = op.Type()
+				if mi, ok := op.(*ssa.MakeInterface); ok {
+					ot = mi.X.Type()
+				}
+				if _, isIface := ot.Underlying().(*types.Interface); !isIface && !hasMethod(ot, calls) {
+					self = false // e.g. *recv formatted where the method is declared on the pointer only
+				}
+			}
+			if self && calls != "" {
+				okAll = false
+				r.bad(rule, fmt.Sprintf("%s|self-format%d", key, i), pos, fmt.Sprintf("%s formats its own receiver with %%%s%c, which calls %s again: printing such a value recurses until the stack overflows (a fatal error, not even a panic)", fnName(fn), v.Flags, v.Verb, calls))
+				continue
+			}
+		}
 		var st types.Type
 		if mi, ok := op.(*ssa.MakeInterface); ok {
 			st = mi.X.Type()
